@@ -2566,24 +2566,19 @@ PPL::Polyhedron::simplify_using_context_assign(const Polyhedron& y) {
             sat_i.set(j);
           }
         }
-        if (sat_i.empty() && num_non_redundant_eq < needed_non_redundant_eq) {
-          // `non_redundant_ineq_i' is actually masking an equality
-          // and we are still looking for some masked inequalities.
-          // Iteration goes downwards, so the inequality comes from x_cs.
-          PPL_ASSERT(i >= y_cs_num_ineq);
-          // Check if the equality is independent in eqs.
-          Constraint masked_eq = non_redundant_ineq_i;
-          masked_eq.set_is_line_or_equality();
-          masked_eq.sign_normalize();
-          if (add_to_system_and_check_independence(eqs, masked_eq)) {
-            // It is independent: add the _inequality_ to non_redundant_eq.
-            non_redundant_eq.insert(non_redundant_ineq_i);
-            ++num_non_redundant_eq;
-          }
+        if (sat_i.empty() && i >= y_cs_num_ineq) {
+          // `non_redundant_ineq_i' is an inequality of `x' masking an
+          // equality of `z'.  It has to be kept: in the context `y',
+          // one equality of `z' may be forced only by several such
+          // inequalities together (e.g., two opposite half-spaces), so
+          // that keeping just one inequality per missing equality is not
+          // meet-preserving.  Masked equalities coming from `y' are
+          // part of the context and must never enter the result, which
+          // would otherwise not be an enlargement of `x'.
+          non_redundant_eq.insert(non_redundant_ineq_i);
+          ++num_non_redundant_eq;
         }
       }
-      // Here we have already found all the needed (masked) equalities.
-      PPL_ASSERT(num_non_redundant_eq == needed_non_redundant_eq);
 
       drop_redundant_inequalities(non_redundant_ineq_p, x.topology(),
                                   sat, z_cs_num_eq);
